@@ -460,7 +460,7 @@ package generator
 // checked (C09: absent properties take their default; C05/C06: absent optional
 // values are never checked against bounds).
 //@ func (*schemaGenerator).generateDeclaredType
-//@   props C09 C05 C06 C17 C16
+//@   props C09 C05 C06 C17 C16 C01
 //@   calls-ordered defaultValidator before structFieldValidators
 //@   guarded structFieldValidators unless-field OnlyModels
 //@   guarded generateUnmarshaler unless-field OnlyModels
@@ -592,6 +592,41 @@ package generator
 //@   arg-from findOutputFileForSchemaID 0 field:ID
 //@   arg-from Load 0 call:extractRefNames:1
 //@   guarded AddImport unless-equal-fields QualifiedName
+
+// ---- the root of a document (generateRootType) ------------------------------------
+// A document without a root schema fails (C18: the callers that follow a reference
+// into it rely on that and dereference the root afterwards). Every definition is
+// declared, whatever the root looks like and whether or not its name is taken (C20:
+// every schema's declarations are emitted; C10). A root without a type declares
+// nothing, also when a mapping names it (C16: --schema-root-type only renames).
+//@ func (*schemaGenerator).generateRootType@noroot
+//@   props C18 C10
+//@   option verify-only
+//@   option inline sortDefinitionsByName (*Generator).getRootTypeName
+//@   option noframe
+//@   shape g = sgen(@registered,@noroot)
+//@   setup map_put(g.schema.Definitions, "X", new_schema_type("object"))
+//@   ensures [C18,C10] a-document-without-a-root-fails: result != nil
+//@ func (*schemaGenerator).generateRootType@roots
+//@   props C20 C10 C16 C18
+//@   option verify-only
+//@   option inline sortDefinitionsByName (*Generator).getRootTypeName
+//@   option noframe
+//@   shape g = sgen(@registered) | sgen(@registered,@rootprops,@rootmapping) | sgen(@registered,@typedroot,@rootmapping)
+//@   setup map_put(g.schema.Definitions, "X", new_schema_type("object"))
+//@   ensures [C20,C10] definitions-are-declared-whatever-the-root: called_with("(*schemaGenerator).generateDeclaredType", 1, g.schema.Definitions["X"])
+//@   ensures [C16,C20] a-root-without-a-type-declares-nothing: len(g.schema.ObjectAsType.Type) == 0 ==> call_count("(*schemaGenerator).generateDeclaredType") == 1
+//@   ensures [C20] a-typed-root-is-declared: len(g.schema.ObjectAsType.Type) == 1 && result == nil ==> called_with("(*schemaGenerator).generateDeclaredType", 1, g.schema.ObjectAsType) && call_count("(*schemaGenerator).generateDeclaredType") == 2
+//@   ensures [C18,C20] declaration-errors-propagate: call_failed("(*schemaGenerator).generateDeclaredType") ==> result != nil
+//@ func (*schemaGenerator).generateRootType@taken
+//@   props C20 C10
+//@   option verify-only
+//@   option inline sortDefinitionsByName (*Generator).getRootTypeName
+//@   option noframe
+//@   shape g = sgen(@registered,@typedroot,@rootmapping)
+//@   setup map_put(g.schema.Definitions, "X", new_schema_type("object"))
+//@   setup map_put(g.output.declsByName, "Mapped", new_decl("Mapped"))
+//@   ensures [C20,C10] definitions-are-declared-also-when-the-root-name-is-taken: called_with("(*schemaGenerator).generateDeclaredType", 1, g.schema.Definitions["X"])
 
 // ---- "$ref": "#" (the document's own root) ---------------------------------------
 // Scenario: the generator's document is registered, and the node holding the ref is
@@ -783,7 +818,7 @@ package generator
 // null-containing lists are wrapped (carrier interface{}). String enums get one
 // typed constant per listed value. An empty list is an error.
 //@ func (*schemaGenerator).generateEnumType
-//@   props C08 C18 C15
+//@   props C08 C18 C15 C16 C02 C03
 //@   option inline PrimitiveTypeFromJSONSchemaType getMinIntType adjustForSignedBounds adjustForUnsignedBounds NormalizeBounds
 //@   option shape-zero t. scope.
 //@   option noframe
@@ -795,9 +830,10 @@ package generator
 //@   assigns nothing
 //@   ensures [C08,C18] empty-list-fails: len(t.Enum) == 0 ==> result1 != nil
 //@   ensures [C08,C15] integer-values-are-ints-whatever-the-format: result1 == nil && len(t.Type) == 1 && t.Type[0] == "integer" ==> enum_carrier(result0.Decl.Type) == "int"
-//@   ensures [C08,C15] values-have-the-carrier-type: result1 == nil && old(enum_consistent(t.Type, t.Enum)) ==> values_have_type(t.Enum, enum_carrier(result0.Decl.Type))
+//@   ensures [C08,C15,C02,C03] values-have-the-carrier-type: result1 == nil && old(enum_consistent(t.Type, t.Enum)) ==> values_have_type(t.Enum, enum_carrier(result0.Decl.Type))
 //@   ensures [C08] constants-for-string-values: result1 == nil && old(enum_consistent(t.Type, t.Enum)) && enum_carrier(result0.Decl.Type) == "string" ==> count_decls(g.output.file.Package.Decls, "*codegen.Constant") >= 1 && (len(t.Enum) == 1 ==> count_decls(g.output.file.Package.Decls, "*codegen.Constant") == 1)
 //@   ensures [C08] no-constants-otherwise: result1 == nil && enum_carrier(result0.Decl.Type) != "string" ==> count_decls(g.output.file.Package.Decls, "*codegen.Constant") == 0
+//@   ensures [C08,C16,C02] untyped-carrier-is-always-wrapped: result1 == nil ==> !(dyn(result0.Decl.Type) == "codegen.PrimitiveType" && result0.Decl.Type.Type == "interface{}")
 //@   ensures [C08,C16] only-models-adds-no-code: result1 == nil && g.config.OnlyModels ==> count_decls(g.output.file.Package.Decls, "*codegen.Var") == 0 && count_decls(g.output.file.Package.Decls, "*codegen.Method") == 0 && len(g.output.file.Package.Imports) == 0
 
 // ---- arm selection in generateType (children of declared types) -----------------
